@@ -34,10 +34,10 @@ def call(f, *a, **k):
         return f(*a, **k)
     except (HarnessSignal, DrawBudgetExceeded):
         raise
-    except (KeyboardInterrupt, SystemExit):
+    except KeyboardInterrupt:
         raise
-    except BaseException as e:  # noqa: BLE001  (pyunicorn exceptions are data)
-        return Raised(e)
+    except BaseException as e:  # noqa: BLE001  (pyunicorn exceptions are data,
+        return Raised(e)        # incl. its own sys.exit() on solver errors)
 
 
 def _dense(x):
